@@ -219,6 +219,13 @@ func runScenario(sc *scenario, seed uint64, res *hx.Result, em *emitter, allPath
 			oc.nodes += ra.count()
 			report(ds, "RootContext("+k+")")
 		}
+		// the environment templates are evaluated in (country of the merged environment: used by number parsing)
+		for k := 0; k < len(oa.Snaps) && k < len(ob.Snaps); k++ {
+			res.OracleChecks++
+			if oa.Snaps[k].Country != ob.Snaps[k].Country && !divergent {
+				res.Fail("leak:merged-environment:country", sc, fmt.Sprintf("%s: default country of the merged environment is %q vs %q for URN twins", oa.Point, oa.Snaps[k].Country, ob.Snaps[k].Country))
+			}
+		}
 		// what the engine itself evaluated
 		res.OracleChecks++
 		if mask(strings.Join(oa.Events, "\x00")) != mask(strings.Join(ob.Events, "\x00")) {
